@@ -182,7 +182,9 @@ pub fn sweep_symb(ti: usize, n_thr: usize, st: &mut Stats) {
 
 // ------------------------------------------------------------------ adapter ms -> symbols
 
-pub const ADAPTER_CHIPS: [&str; 2] = ["sx1276", "sx1262"];
+pub const ADAPTER_CHIPS: [&str; 3] = ["sx1276", "sx1262", "sx1272"];
+/// margins beyond the statement's 0..=1000 ms: exercised and recorded as observations (evidence classes), not judged
+pub const BEYOND_MS: [u32; 12] = [1001, 1048, 1049, 2000, 5000, 16_778, 65_535, 1_000_000, 1_073_741, 1_073_742, u32::MAX / 4 + 1, u32::MAX];
 pub const KF_ADAPTER: &str = "C17-adapter-margin-rounded-down";
 pub const FP_ADAPTER_SUBQ: &str = "adapter-margin/short-by-less-than-a-quarter-symbol";
 
@@ -224,6 +226,16 @@ fn adapter_observe(chip: &str, sf: usize, bw: usize, ms: u32) -> Result<Option<u
             // the effective value: the register when the driver wrote it, else the command argument
             let v = decode126(&ch);
             Ok(v.iter().map(|x| x.1).min())
+        }
+        "sx1272" => {
+            let c = rig::new127(Kind::Sx1272);
+            c.borrow_mut().irq_on_rx = IRQ_RX_TIMEOUT;
+            let ok = go(rig::sx1272(&c, false, false).0, sf, bw, ms)?;
+            if !ok {
+                return Ok(None);
+            }
+            let ch = c.borrow();
+            Ok(Some(ch.symb_timeout()))
         }
         _ => {
             let c = rig::new127(Kind::Sx1276);
@@ -339,6 +351,19 @@ pub fn sweep_adapter(ti: usize, n_thr: usize, st: &mut Stats, kf: &KnownFindings
                     }
                 }
                 st.class_n(&format!("adapter:{chip}"), 1001);
+                // beyond the stated domain: observations only
+                for ms in BEYOND_MS {
+                    st.eval();
+                    let what = match adapter_case(chip, sf, bw, ms, kf) {
+                        Ok(AdapterOutcome::PairRefused) => continue,
+                        Ok(AdapterOutcome::AtChipMaximum) => "at-chip-maximum",
+                        Ok(AdapterOutcome::Covered) => "covered",
+                        Ok(AdapterOutcome::Tolerated(_)) => "short-by-less-than-a-quarter-symbol",
+                        Err(f) if f.rule == "no-panic" => "panic",
+                        Err(_) => "short",
+                    };
+                    st.class(&format!("adapter:beyond-1000ms-not-judged:{what}"));
+                }
             }
         }
     }
